@@ -75,7 +75,14 @@ fn gen_ops(rng: &mut Rng, data_len: usize, crash: bool) -> Vec<ROp> {
         ops.push(ROp::SetChunk(*rng.pick(&CHUNKS)));
     }
     // under Miri every step costs ~50 ms: shorter histories, more of them
-    let nops = if cfg!(miri) { 2 + rng.small(14) } else { 3 + rng.small(60) };
+    let nops = if cfg!(miri) {
+        2 + rng.small(14)
+    } else if rng.chance(1, 100) {
+        // a long session
+        200 + rng.below(600)
+    } else {
+        3 + rng.small(60)
+    };
     let w_crash = if crash { 3 } else { 0 };
     for _ in 0..nops {
         let k = rng.weighted(&[14, 6, 8, 8, 12, 6, 6, 4, 8, 3, 3, 3, w_crash, w_crash]);
